@@ -34,6 +34,13 @@ def driver_line(op: dict, impl_resp: str) -> str | None:
                 f"reset={op.get('reset', 0)} clear={op.get('clear', 1)} f={op.get('f', 0)}")
     if o == "setvalues":
         return f"setvalues sid={op['sid']} V={flist(op['V'])}"
+    if o == "setpolicy":
+        return f"setpolicy sid={op['sid']} pol={flist(op['pol'])}"
+    if o == "evaluate":
+        if "n" not in h:
+            return None
+        return (f"evaluate id={op['id']} n={h['n']} maxbs={h['maxbs']} dev={h['dev']} gamma={op['gamma']} eps={op['eps']} test={op['test']} "
+                f"budget={op['budget']} pol={flist(op['pol'])} V={flist(op['V'])}")
     if o == "solve":
         s = f"solve sid={op['sid']} k={op['k']}"
         if "perms" in h:
